@@ -53,9 +53,13 @@ func (d *dp) u64() uint64 {
 	}
 	return v
 }
-func (d *dp) label() uint64 { return 16 + (uint64(d.byte())<<16|uint64(d.byte())<<8|uint64(d.byte()))%(1048575-16+1) }
-func (d *dp) ip4() string   { return fmt.Sprintf("%d.%d.%d.%d", d.byte(), d.byte(), d.byte(), d.byte()) }
-func (d *dp) ip6() string   { return fmt.Sprintf("2001:db8:%x::%x", uint16(d.byte())<<8|uint16(d.byte()), d.byte()) }
+func (d *dp) label() uint64 {
+	return 16 + (uint64(d.byte())<<16|uint64(d.byte())<<8|uint64(d.byte()))%(1048575-16+1)
+}
+func (d *dp) ip4() string { return fmt.Sprintf("%d.%d.%d.%d", d.byte(), d.byte(), d.byte(), d.byte()) }
+func (d *dp) ip6() string {
+	return fmt.Sprintf("2001:db8:%x::%x", uint16(d.byte())<<8|uint16(d.byte()), d.byte())
+}
 func (d *dp) mac() string {
 	return fmt.Sprintf("%02x:%02x:%02x:%02x:%02x:%02x", d.byte(), d.byte(), d.byte(), d.byte(), d.byte(), d.byte())
 }
@@ -251,6 +255,6 @@ func runFuzz(data []byte) *ev.Verdict {
 			break
 		}
 	}
-	matrix(s, m, v)
+	matrix(s, m, v, hgen.NIs)
 	return v
 }
